@@ -47,15 +47,16 @@ RULE = ('cases = (package of 2-6 models in per-file or cube format, 6-20 wavelen
         'non-degenerate for the planted data (every other model has chi2 > 1e-3); distinct = distinct canonical hash '
         'of the generated inputs')
 REQUIRED_BRANCHES = ['per_file', 'cube', 'dist_independent', 'dist_dependent', 'table_permuted', 'flag1', 'flag4',
-                     'staged_convolution', 'staged_table_not_alphabetical', 'distance_unit_kpc', 'distance_unit_other',
+                     'staged_convolution', 'staged_table_not_alphabetical', 'staged_first_stage_checked', 'distance_unit_kpc', 'distance_unit_other',
                      'dist_dependent_unit_not_kpc', 'av0_at_lower_bound', 'two_sources', 'wav_increasing', 'wav_decreasing', 'unused_band']
 ASSUMPTIONS = ['IEEE rounding is not modelled: chi2 <= 1e-6 n, |A_V - A_V0|, |scale - s0| <= 1e-6 + first-order '
                'propagation of the storage precision of the model fluxes + 1e-12 x condition number of the normal equations',
                'extinction coefficients at the filters differ pairwise by >= 0.02 (well-conditioned regression, as in C01)',
                '`fit()` always reads cube packages through a float32 memmap (no switch in its signature): budget '
                '2 x 2^-24 (1/ln 10 + 3 |log10 F|max) on each log10 model flux',
-               'non-degeneracy floor: every other model has chi2 > 1e-3 on the planted data; degenerate cases are '
-               'counted as trivial and skipped',
+               'identifiability is established per stage by the harness\'s own arithmetic (not from the fitter\'s answer): >= 3 '
+               'fitted bands, every other model has chi2 > 1e-3 at every scale / trial distance, and the planted model has '
+               'chi2 > 1e-3 at every other trial distance; otherwise the source is counted as trivial and skipped',
                'theta*d stays >= 1.001 x the smallest tabulated aperture on the whole distance grid; theta*d0 is inside the table']
 TRUSTED_EXTRA = ['the binned filter response comes from the public Filter.rebin (C06); the harness only sums']
 N = {'quick': 240, 'thorough': 6000}
@@ -88,7 +89,7 @@ def gen_case(rng, directed=None):
     wav = sorted(wav)
     order = directed.get('order', rng.choice(['inc', 'dec']))
     # filters: central wavelengths well inside the range, tabulated on 3-7 points in either order
-    nf = rng.randint(3, 5)
+    nf = directed.get('nf', rng.randint(3, 5))
     filters = []
     cens = set()
     while len(filters) < nf:
@@ -205,7 +206,7 @@ def gen_case(rng, directed=None):
     # staged history: convolve a first group of filters, fit + write_parameters, convolve the remaining filter(s)
     # into the same package, fit + write_parameters with all filters (one process, one model directory)
     staged = directed.get('staged', rng.random() < 0.35)
-    n_first = rng.randint(2, nf - 1) if staged else nf
+    n_first = rng.randint(min(3, nf - 1), nf - 1) if staged else nf     # >= 3 bands in the first stage when possible
     return dict(fmt=fmt, dep=dep, names=names, wav=wav, aps=aps, flux=flux, filters=filters, theta=theta,
                 drange=drange_u, dunit=dunit, n_first=n_first, step=step, cols=cols, table_order=table_order, stems=stems,
                 tab_w=tw, tab_chi=chi, av=[av_lo, av_hi], sources=sources,
@@ -221,12 +222,12 @@ DIRECTED = [
     dict(fmt='cube', dep=True, flags='mixed', nsrc=2),
     dict(fmt='per_file', dep=False, flags='flag4', nsrc=1, degenerate=True),
     dict(fmt='per_file', dep=True, flags='flag1', nsrc=1, av0_lo=True),
-    dict(fmt='per_file', dep=False, flags='flag4', nsrc=1, staged=True, dunit='kpc'),
-    dict(fmt='per_file', dep=True, flags='flag1', nsrc=2, staged=True, dunit='pc'),
+    dict(fmt='per_file', dep=False, flags='flag4', nsrc=1, staged=True, dunit='kpc', nf=5),
+    dict(fmt='per_file', dep=True, flags='flag1', nsrc=2, staged=True, dunit='pc', nf=5),
     dict(fmt='cube', dep=True, flags='flag4', nsrc=1, staged=False, dunit='Mpc'),
     dict(fmt='per_file', dep=True, flags='mixed', nsrc=1, staged=False, dunit='cm'),
-    dict(fmt='cube', dep=True, flags='flag1', nsrc=1, staged=True, dunit='lyr'),
-    dict(fmt='per_file', dep=False, flags='mixed', nsrc=2, staged=True, dunit='pc'),
+    dict(fmt='cube', dep=True, flags='flag1', nsrc=1, staged=True, dunit='lyr', nf=5),
+    dict(fmt='per_file', dep=False, flags='mixed', nsrc=2, staged=True, dunit='pc', nf=5),
 ]
 for _d in DIRECTED[:8]:
     _d.setdefault('staged', False)
@@ -456,6 +457,68 @@ def model_exact(case, src, run, si):
     return out
 
 
+def own_profile(case, src, run, si):
+    """harness's own arithmetic, independent of the fitter's answer: chi2 of every model on the planted data.
+    distance-dependent: array (n_models, n_grid), optimal clipped A_V at every trial distance;
+    distance-independent: array (n_models, 1), two-parameter weighted regression, clamp A_V, rescale"""
+    p = run['planted'][si]
+    fitted = [j for j, f in enumerate(src['flags']) if f in (1, 4)]
+    sig = np.array([src['errs'][j] / LN10 if src['flags'][j] == 1 else src['errs'][j] for j in fitted])
+    w = 1. / sig ** 2
+    k = run['ks'][fitted]
+    y = np.asarray(p['logf'])[fitted]
+    lo, hi = case['av']
+    nm = len(case['names'])
+    if case['dep']:
+        g = grid(case)
+        out = np.zeros((nm, len(g)))
+        aps = np.array(case['aps'], dtype=float)
+        for i in range(nm):
+            for di, dd in enumerate(g):
+                mf = np.array([np.log10(np.interp(case['theta'][j] * (dd * 1000.), aps, run['own'][i, j, :]) / dd ** 2)
+                               for j in fitted])
+                r = y - mf
+                a = min(max(np.sum(r * k * w) / np.sum(k * k * w), lo), hi)
+                out[i, di] = np.sum(w * (r - a * k) ** 2)
+        return out
+    out = np.zeros((nm, 1))
+    q = -2.
+    for i in range(nm):
+        r = y - np.log10(run['own'][i, fitted, 0])
+        m11, m12, m22 = np.sum(k * k * w), np.sum(k * q * w), np.sum(q * q * w)
+        c1, c2 = np.sum(r * k * w), np.sum(r * q * w)
+        det = m11 * m22 - m12 * m12
+        a = (m22 * c1 - m12 * c2) / det
+        sc = (m11 * c2 - m12 * c1) / det
+        if a < lo or a > hi:
+            a = min(max(a, lo), hi)
+            sc = np.sum((r - a * k) * q * w) / m22
+        out[i, 0] = np.sum(w * (r - a * k - sc * q) ** 2)
+    return out
+
+
+def identifiable(case, src, run, si):
+    """True when, by the harness's own arithmetic, the planted (model, A_V0, scale | d0) is the only solution with
+    chi2 <= FLOOR: no other model at any scale / trial distance, and (distance-dependent mode) the planted model at
+    no other trial distance"""
+    prof = own_profile(case, src, run, si)
+    m = src['m']
+    others = np.delete(prof, m, axis=0)
+    if others.size and not np.all(others > FLOOR):
+        return False
+    if case['dep']:
+        g = grid(case)
+        d0i = min(src['di'], len(g) - 1)
+        rest = np.delete(prof[m], d0i)
+        if rest.size and not np.all(rest > FLOOR):
+            return False
+    return True
+
+
+MIN_BANDS = 3     # fitted bands needed in a stage: with 2 bands (A_V, scale) fit every model exactly, with 1 band
+#                   A_V alone fits every trial distance exactly
+
+
 def check_property(case, runs, use_driver=True):
     """the statement of C08 on every stage of the history (the final one last).
     returns (ok, detail, n_nontrivial of the final stage, n_degenerate, violates, n_nontrivial of earlier stages)"""
@@ -503,8 +566,8 @@ def check_stage(case, run, use_driver=True):
         si = case['sources'].index(src)
         m = src['m']
         n_fitted = sum(1 for f in src['flags'] if f in (1, 4))
-        if n_fitted < (1 if case['dep'] else 2):
-            n_deg += 1            # too few bands in this stage to determine (A_V, scale): outside the quantifier
+        if n_fitted < MIN_BANDS or not identifiable(case, src, run, si):
+            n_deg += 1            # planted (model, A_V0, scale | d0) not the unique solution: outside the quantifier
             continue
         da, ds, dchi, nfit = budgets(case, src, run, si)
         planted_scale = run['planted'][si]['scale']
@@ -518,8 +581,7 @@ def check_stage(case, run, use_driver=True):
             others = [ex[i][2] for i in range(len(names)) if i != m]
             degenerate = min(others) <= FLOOR
         else:
-            c2 = np.sort(rec['chi2'])
-            degenerate = len(c2) < 2 or not (c2[1] > FLOOR)
+            degenerate = False          # decided above by `identifiable`, independently of the fitter's answer
         if degenerate:
             n_deg += 1
             continue
@@ -593,8 +655,10 @@ def run_case(case):
             if len(run) > 1:
                 branches.add('staged_convolution')
                 table_names = [case['names'][i] for i in case['table_order']]
-                if case['fmt'] == 'per_file' and table_names != sorted(table_names) and n_early:
+                if case['fmt'] == 'per_file' and table_names != sorted(table_names):
                     branches.add('staged_table_not_alphabetical')
+                if n_early:
+                    branches.add('staged_first_stage_checked')
         if n_deg:
             branches.add('degenerate_skipped')
         sample = dict(fmt=case['fmt'], dist_dependent=case['dep'], n_models=len(case['names']), n_wav=len(case['wav']),
